@@ -1650,7 +1650,7 @@ func init() {
 		"C12": " Round 5: an iteration of the pattern compiler that parsed a placeholder ends with an error or appends it as a token of its own.",
 		"C13": " Round 5: while Reverse negates, no function consults a comparator it received in both argument orders. Round 6: in the sorting package instants are compared at full precision (no Unix()/UnixMilli() projection).",
 		"C14": " Round 5: the magnitude a renderer hands to SparkWrite / HeatWrite / BarWrite is a Scaler.Scale result, never a literal.",
-		"C16": " Round 5: the index / slice / loop obligations of pkg/minijson are discharged (E-PANIC).",
+		"C16": " Round 5: the index / slice / loop obligations of pkg/minijson are discharged (E-PANIC). Round 6: every text the numeric recogniser accepts is a JSON number (abstract interpretation of isNumeric over byte classes x JSON-number DFA states, explored to a fixpoint; reported as not decided - without failing - when the recogniser leaves the interpreted scan idiom).",
 		"C17": " Round 5: array-typed fields of a pooled context (vals) count as state: every element is assigned before each use.",
 		"C18": " Round 5: every result of {duration} is an error marker or derives from time.ParseDuration; no name in the time helpers is resolved by the first hit of a map iteration.",
 		"C19": " Round 5: a binding that does not parse stores to a field of the context wrapper and the runner chooses the error marker by that field, not by the computed value.",
